@@ -477,3 +477,12 @@ Definition compile_ok (a : assets) (nodes : list node) (visit : list nat) : bool
   | Some t => validate a nodes t && valid_commit a nodes t
   | None => false
   end.
+
+(* the generated segments lie inside the domain of the compiler-correctness theorem (well-formed; the recorded
+   traversal is a permutation of the nodes) whenever the real compiler accepted them *)
+Definition check_fcase_wf (f : fcase) : bool :=
+  check_fcase f
+  && match f with
+     | FCase _ (CTable nodes a visit _ (Some _) _) => wfb a nodes visit
+     | _ => true
+     end.
